@@ -320,6 +320,42 @@ func c13(env *Env, rep *Report) {
 	for d := 1; d <= df; d++ {
 		enum("file", d)
 	}
+	// a callback replayed by ANOTHER browser, with an identity provider that exchanges a code once: browser A
+	// completes a login; browser B (no session / an own pending login) presents the very same callback URL: the
+	// provider does not exchange the code again, so B is not logged in; A stays logged in
+	for _, store := range []string{"cookie", "file"} {
+		for _, bHasSession := range []bool{false, true} {
+			n++
+			if !env.mine(n) {
+				continue
+			}
+			distinct++
+			rep.add("executions", 1)
+			vclock.Reset()
+			app := NewWebApp(WebCfg{Store: store, HostSelection: "roundrobin", Hosts: []string{"target.example:3389"}, VerifyClientIP: true})
+			c13Script(app.IdP)
+			app.IdP.OneTime = true
+			A, B := NewBrowser("10.0.0.1:40000"), NewBrowser("10.0.0.2:40000")
+			rec := A.Do(app, "GET", "/connect")
+			url := "/callback?state=" + StateOf(rec) + "&code=ok:preferred_username"
+			first := A.Do(app, "GET", url)
+			if bHasSession {
+				B.Do(app, "GET", "/connect")
+			}
+			second := B.Do(app, "GET", url)
+			wa, _ := c13Who(app, A)
+			wb, _ := c13Who(app, B)
+			app.IdP.OneTime = false
+			rep.outcome(fmt.Sprintf("%s replay-by-another-browser first=%d second=%d b-authenticated=%v", store, first.Code, second.Code, wb.Authenticated))
+			what := fmt.Sprintf("store=%s, B had a session of its own: %v; A's callback answered %d, the same URL from B %d (token requests at the provider: %d); A authenticated=%v, B authenticated=%v as %q", store, bHasSession, first.Code, second.Code, app.IdP.TokenCalls, wa.Authenticated, wb.Authenticated, wb.User)
+			if first.Code != 302 || !wa.Authenticated {
+				rep.violate("C13/valid-login-not-completed/"+store+"/one-time-codes", what, map[string]any{"noreplay": true})
+			}
+			if wb.Authenticated {
+				rep.violate("C13/other-browser-became-authenticated/"+store+"/replayed-callback-with-a-spent-code", what, map[string]any{"noreplay": true})
+			}
+		}
+	}
 	// directed histories of depth 5: a state is issued, a callback that fails in any way comes 61 s later, and
 	// another 61 s later (the state is now 122 s old) a callback that would otherwise be valid: nothing that
 	// happened in between may have given the state more time
